@@ -47,6 +47,17 @@ varintAdaptiveEncodingType varintAdaptiveSelectEncoding(const varintAdaptiveData
 #ifndef VERIF_NATIVE
 void H_adSelect(void) { varintAdaptiveDataStats s; varintAdaptiveSelectEncoding(&s); CANARY(); }
 
+/* ---- M3: the analysis tells the truth about a two-element array (the facts the selection relies on) ---- */
+void H_adAnalyze(void) {
+    uint64_t v[2]; varintAdaptiveDataStats st;
+    varintAdaptiveAnalyze(v, 2, &st);
+    uint64_t lo = v[0] < v[1] ? v[0] : v[1], hi = v[0] < v[1] ? v[1] : v[0];
+    __CPROVER_assert(st.count == 2 && st.minValue == lo && st.maxValue == hi && st.range == hi - lo, "adaptive analysis: count, min, max, range");
+    __CPROVER_assert(st.fitsInBitmapRange == (hi < 65536), "adaptive analysis: bitmap range flag means every value is below 65536");
+    __CPROVER_assert(st.isSorted == (v[0] <= v[1]) && st.isReverseSorted == (v[0] >= v[1] && !(v[0] <= v[1])), "adaptive analysis: sortedness flags");
+    __CPROVER_assert(st.uniqueCount == (v[0] == v[1] ? 1 : 2), "adaptive analysis: distinct values");
+    CANARY();
+}
 void H_adForced(void) {
     size_t count = AD_N;
     uint64_t v[AD_N], out[AD_N + 1]; size_t k; __CPROVER_assume(k < count);
